@@ -17,7 +17,9 @@
    stage S3 adds an internal DTD subset with character-data entities (Unicode names and values, nested, first declaration
    wins) referenced from content, attribute values and NAMESPACE DECLARATION VALUES (a URI supplied through an entity):
    parse_render_sem_full_s3, hoist_insensitive_full_s3.  S1 c S2 c S3; this is the single statement that covers
-   C03..C07 together on the largest fragment.
+   C03..C07 together on the largest fragment.  Rejection half (NsRejMain.v, on Spec/CstNs.v): for syntactically
+   well-formed documents parse succeeds IFF the namespace conditions N1-N7 hold (ns_decide), and the first violated
+   rule (first_violation, NsRejDefs.v) determines the error variant and payload (ns_violation_variant).
    Statements are pinned here (copied verbatim from the proof files by tools/pin_props.py);
    each is re-proved by `exact` and followed by Print Assumptions. *)
 From Coq Require Import Ascii String.
@@ -27,7 +29,9 @@ From RX Require Import Generated.
 From RX.Model Require Import Base CharClass Stream Tokenizer Doc Builder Parse Api.
 From RX.Spec Require Scope.
 From RX.Spec Require Cst CstNs CstU CstFull.
-From RX.Proofs Require Import ScopeProofs ScopeParse CstNsView CstNsMain CstFullMain CstFullS1 CstFullS2 CstFullS3.
+From RX.Proofs Require Import ScopeProofs ScopeParse CstNsView CstNsMain CstFullMain CstFullS1 CstFullS2 CstFullS3 NsRejDefs NsRejBuild NsRejMain.
+From RX.Spec Require CstFullS4.
+From RX.Proofs Require CstFullS4Main.
 Open Scope N_scope.
 
 (* ---- Proofs/ScopeParse.v ---- *)
@@ -212,8 +216,26 @@ Print Assumptions C06_hoist_insensitive_full_s3.
 
 End G4.
 
-(* ---- Proofs/CstNsMain.v ---- *)
+(* ---- Proofs/CstFullS4Main.v ---- *)
 Module G5.
+Import RX.Spec.CstFull. Import RX.Spec.CstFullS4. Import RX.Proofs.CstFullS4Main.
+Theorem C06_parse_render_sem_full_s4 :
+  forall (d : S4.doc) (opt : options),
+  S4.wf_doc d = true ->
+  allow_dtd opt = true ->                                         (* the options allow a DOCTYPE *)
+  N.of_nat (length (S4.sem d)) < nodes_limit opt ->               (* room for all nodes + the Root *)
+  N.of_nat (length (S4.sem d)) < u32_max ->                        (* of the MEANING: entities add nodes *)
+  N.of_nat (S4.nattrs d) < u32_max ->                              (* the attribute rows of the meaning *)
+  S4.distinct_decls_le d (N.to_nat 65535) ->                       (* at most 65535 distinct declared bindings *)
+  1 + N.of_nat (S4.ns_cost d) <= u32_max ->                        (* the namespace table fits *)
+  exists doc, parse (S4.render d) opt = Ok doc /\ view (S4.render d) doc = Some (S4.sem d).
+Proof. exact parse_render_sem_full_s4. Qed.
+Print Assumptions C06_parse_render_sem_full_s4.
+
+End G5.
+
+(* ---- Proofs/CstNsMain.v ---- *)
+Module G6.
 Import CstNs.
 Theorem C06_parse_render_sem_ns :
   forall (c : doc) (opt : options),
@@ -238,4 +260,31 @@ Theorem C06_layout_insensitive_ns :
 Proof. exact layout_insensitive_ns. Qed.
 Print Assumptions C06_layout_insensitive_ns.
 
-End G5.
+End G6.
+
+(* ---- Proofs/NsRejMain.v ---- *)
+Module G7.
+Import CstNs.
+Theorem C06_ns_decide :
+  forall (c : doc) (opt : options),
+  wf_syntax_ns c = true ->
+  N.of_nat (length (sem c)) < nodes_limit opt ->
+  N.of_nat (length (render c)) <= u32_max ->
+  distinct_decls_le (d_root c) (N.to_nat 65535) ->
+  1 + N.of_nat (ns_cost [] (d_root c)) <= u32_max ->
+  ((exists d, parse (render c) opt = Ok d) <-> ns_conditions c = true).
+Proof. exact ns_decide. Qed.
+Print Assumptions C06_ns_decide.
+
+Theorem C06_ns_violation_variant :
+  forall (c : doc) (opt : options) (rl : rule),
+  wf_syntax_ns c = true -> first_violation c = Some rl ->
+  N.of_nat (length (sem c)) < nodes_limit opt ->               (* room for all nodes + the Root *)
+  N.of_nat (length (render c)) <= u32_max ->                    (* the input is at most u32::MAX bytes long *)
+  distinct_decls_le (d_root c) (N.to_nat 65535) ->              (* at most 65535 distinct declared bindings *)
+  1 + N.of_nat (ns_cost [] (d_root c)) <= u32_max ->            (* the namespace table fits *)
+  exists e, parse (render c) opt = Err e /\ rule_error rl e = true.
+Proof. exact ns_violation_variant. Qed.
+Print Assumptions C06_ns_violation_variant.
+
+End G7.
